@@ -114,6 +114,16 @@ check('C10', 'proof',
       'Trusted: Coq kernel (vm_compute for the instance theorem), translator gen_versions (imports every version module, inspect.signature), harness; importlib and CPython call binding are modelled.',
       'exhaustive generated instance theorem (vm_compute) + Coq binding model + cross-check with inspect', 'DESIGN.md §6 C10')
 
+check('C16', 'proof',
+      'Coq theorems: on every writable type tree with distinct field names, for every typed value outside three stated holes, the model of the '
+      'library\'s writers produces exactly the statement\'s wire encoding, hence (with the C03 theorem) the library\'s reader returns exactly the '
+      'value and what followed; out-of-range integers, blobs >= 65536 bytes and wrong argument counts are refused; the full statement is refuted '
+      'by three witnesses (None for an AllowNone dict, non-ASCII text, wrong-length fixed array = known findings C16-a/b/c). Tie: generated '
+      'struct-format tables proved equal to the model\'s; bytes written by the library vs the extracted writer model and write->read round trips '
+      'on generated types/values incl. the holes, unrepresentable values and method argument lists.',
+      'Trusted: Coq kernel, extraction + driver, harness; CPython struct.pack range checks and float32 rounding (only float32-representable values are generated).',
+      'Coq proof (writer model = spec encoder, composed with the decoder theorem) + differential write/read run', 'DESIGN.md §6 C16')
+
 NOT_YET = {}
 ALL = ['C%02d' % i for i in range(1, 20)]
 def main():
